@@ -146,6 +146,9 @@ type Machine struct {
 	noModelGuide bool
 	decided      map[*Term]bool
 	sharedLog    []*Term
+	absBuf       bool
+	absBufs      map[*Value]Str
+	udps         map[*Value]*udpState
 }
 
 type classDef struct {
@@ -565,6 +568,14 @@ func (th *Thread) callSSA(caller *Frame, pos token.Pos, fn *ssa.Function, args [
 	m := th.m
 	name := fn.String()
 	if fn.Synthetic == "" || true {
+		if m.absBuf {
+			if h, ok := absBufIntrinsics[name]; ok {
+				saved := th.fr
+				r := h(th, fn, args)
+				th.fr = saved
+				return r
+			}
+		}
 		if h, ok := intrinsics[name]; ok {
 			saved := th.fr
 			r := h(th, fn, args)
@@ -1142,6 +1153,23 @@ func (th *Thread) slice(instr *ssa.Slice, x, lo, hi, max Value) Value {
 		}
 		return Slice(a)[l:h:mx]
 	}
+	if ob, ok := x.(OBytes); ok {
+		// only the full range of an abstract byte slice can be taken
+		full := func(v Value, isLo bool) bool {
+			if v == nil {
+				return true
+			}
+			t := v.(*Term)
+			if isLo {
+				return t.IsConst() && t.Val == 0
+			}
+			return t == th.strLenTerm(ob.S)
+		}
+		if full(lo, true) && full(hi, false) && full(max, false) {
+			return ob
+		}
+		m.unsupported("partial slice of an abstract byte slice")
+	}
 	m.unsupported(fmt.Sprintf("slice of %T", x))
 	return nil
 }
@@ -1566,6 +1594,8 @@ func (th *Thread) callBuiltin(caller *Frame, b *ssa.Builtin, args []Value, cc *s
 			return ts.Const(64, uint64(x.Len()))
 		case Slice:
 			return ts.Const(64, uint64(len(x)))
+		case OBytes:
+			return th.strLenTerm(x.S)
 		case Array:
 			return ts.Const(64, uint64(len(x)))
 		case *Value:
